@@ -366,7 +366,7 @@ def run(tier, replay=None):
         return rep.finish(rule="replay")
     sentinel_pass(rep)
     cold_start(rep)
-    n, k = (110, 4) if tier == "quick" else (5000, 20)
+    n, k = (110, 4) if tier == "quick" else (1500, 8)
     run_schemas(rep, base_sweep(), 3 * k)
     run_schemas(rep, corpus_cases(PROP) + [gen_case(rng) for _ in range(n)], k)
     return rep.finish(
